@@ -480,29 +480,53 @@ def wrong_axis_model(g: dict, key: list) -> str:
     return ""
 
 
-def classify(tr: dict, d: dict, check: str) -> dict:
-    """Narrow signature of one mismatching item of one recorded history."""
-    g = tr["g"]
-    e = tr["ev"][d["l"] - 1]
-    obs = observed_item(tr, d)
+STATE_CLAUSES = ("mask", "ml", "has", "gfi")
+
+
+def geom_features(g: dict) -> dict:
     mask = [bool(m) for m in g["mask"]]
-    ibe = any((not mask[i]) and any(mask[i + 1:]) for i in range(len(mask)))
-    sig = {"check": check, "cls": tr["cls"].split("+")[0], "op": e["op"], "clause": d["c"],
-           "internal_shape": bool(g["internal"]), "internal_before_external": ibe,
-           "after_reopen": any(x["op"] == "persist_reopen" for x in tr["ev"][: d["l"]])}
-    if d["c"] == "outcome":
-        sig["exc"] = obs or ""
-        sig["kind"] = ("dump_rejected" if obs and not d["exp"] else "dump_accepted" if d["exp"] and not obs
-                       else "wrong_exception") if e["op"] == "dump" else "mutator_raised"
+    return {"internal_shape": bool(g["internal"]),
+            "internal_before_external": any((not mask[i]) and any(mask[i + 1:]) for i in range(len(mask)))}
+
+
+def classify(tr: dict, items: list[dict], check: str) -> list[tuple[dict, dict]]:
+    """Narrow signatures for the mismatching items of ONE event of one recorded history: [(signature, item)].
+    * the mutator's outcome differs            -> one signature (clause "outcome"), observers are consequences
+    * the stored state differs (mask, mask_linear, has_index, get_from_index) -> one signature (clause "state")
+    * otherwise one signature per (observer, kind of mismatch): the features of the mutator are irrelevant"""
+    g = tr["g"]
+    e = tr["ev"][items[0]["l"] - 1]
+    base = {"check": check, "cls": tr["cls"].split("+")[0],
+            "after_reopen": any(x["op"] == "persist_reopen" for x in tr["ev"][: items[0]["l"]])}
+    mut = dict(base, op=e["op"], **geom_features(g))
+    if e["op"] == "dump":
+        mut["key_has_slice"] = any(len(c) == 3 for c in e["key"])
+    outcome = [it for it in items if it["c"] == "outcome"]
+    if outcome:
+        it = outcome[0]
+        obs = observed_item(tr, it)
+        kind = "mutator_raised"
         if e["op"] == "dump":
-            sig["key_has_slice"] = any(len(c) == 3 for c in e["key"])
-            sig["wrong_axis_model_explains"] = wrong_axis_model(g, e["key"]) == obs and ibe
-    else:
-        sig["exc"] = obs.get("exc", "") if isinstance(obs, dict) else ("raised" if obs == RAISED else "")
-        sig["kind"] = mismatch_kind(d["exp"], obs)
-        if e["op"] == "dump":
-            sig["key_has_slice"] = any(len(c) == 3 for c in e["key"])
-    return sig
+            kind = "dump_rejected" if obs and not it["exp"] else "dump_accepted" if it["exp"] and not obs else "wrong_exception"
+            mut["wrong_axis_model_explains"] = mut["internal_before_external"] and wrong_axis_model(g, e["key"]) == obs
+        return [(dict(mut, clause="outcome", kind=kind, exc=obs or ""), it)]
+    state = [it for it in items if it["c"] in STATE_CLAUSES]
+    if state:
+        it = next((x for x in state if x["c"] == "ml"), state[0])
+        obs = observed_item(tr, it)
+        exc = obs.get("exc", "") if isinstance(obs, dict) else ("raised" if obs == RAISED else "")
+        kind = "observer_raises" if exc else ("dump_wrong_cells" if e["op"] == "dump" else "state_changed")
+        return [(dict(mut, clause="state", kind=kind, exc=exc, observer=it["c"]), it)]
+    out, seen = [], set()
+    for it in items:
+        obs = observed_item(tr, it)
+        sig = dict(base, clause=it["c"], kind=mismatch_kind(it["exp"], obs), internal_shape=bool(g["internal"]),
+                   exc=obs.get("exc", "") if isinstance(obs, dict) else "")
+        k = json.dumps(sig, sort_keys=True)
+        if k not in seen:
+            seen.add(k)
+            out.append((sig, it))
+    return out
 
 
 def report(ctx: Ctx, traces: list[dict], owners: dict[int, list[dict]], rejected: dict[int, int], name: str,
@@ -525,33 +549,29 @@ def report(ctx: Ctx, traces: list[dict], owners: dict[int, list[dict]], rejected
                     "the NumPy reference disagrees with Storage.tla (one of the two is wrong; this is not a verdict "
                     f"about pipefunc): g={tr['g']} ops={tr['ops']} event {it['l']} clause {it['c']}[{it['i']}] "
                     f"spec={it['exp']} numpy={observed_item(tr, it)}")
-        # Event by event: a mutator-outcome mismatch is reported alone (its observer mismatches are consequences);
-        # after an event whose outcome or stored state (mask/mask_linear/has_index/get_from_index) differs the
-        # real object and the specified state have diverged: later items are consequences, not separate failures.
-        first_l = items[0]["l"]
-        sel = []
-        for lev in sorted({it["l"] for it in items}):
-            here = [it for it in items if it["l"] == lev]
-            outcome = [it for it in here if it["c"] == "outcome"]
-            sel += outcome or here
-            if outcome or any(it["c"] in ("ml", "has", "gfi", "mask") for it in here):
-                break
+        # Event by event; after an event whose mutator outcome or stored state differs, the real object and the
+        # specified state have diverged: later items are consequences, not separate failures.
         for own in owners[i]:
             t2 = dict(tr, cls=own["cls"])
             seen: set[str] = set()
-            for it in sel:
-                sig = classify(t2, it, check)
-                k = json.dumps(sig, sort_keys=True)
-                if k in seen:
-                    continue
-                seen.add(k)
-                e = tr["ev"][it["l"] - 1]
-                what = (f"{sig['cls']} {g_str(tr['g'])}: after {e['op']} {key_str(e['key'])} (event {it['l']}) "
-                        f"{it['c']}{'[' + key_str(tr['gkeys'][it['i'] - 1]) + ']' if it['c'] == 'get' else ''} "
-                        f"observed {short(observed_item(tr, it))} required {short(it['exp'])}")
-                ctx.violation(sig, what, {"cls": own["cls"], "g": tr["g"], "ops": tr["ops"], "obs": tr["obs"],
-                                          "gkeys": tr["gkeys"], "check": check, "rejected_at": first_l,
-                                          "item": it, "observed": observed_item(tr, it)})
+            for lev in sorted({it["l"] for it in items}):
+                here = [it for it in items if it["l"] == lev]
+                for sig, it in classify(t2, here, check):
+                    k = json.dumps(sig, sort_keys=True)
+                    if k in seen:
+                        continue
+                    seen.add(k)
+                    e = tr["ev"][it["l"] - 1]
+                    what = (f"{sig['cls']} {g_str(tr['g'])}: after {e['op']}{key_str(e['key']) if e['op'] == 'dump' else ''} "
+                            f"(event {it['l']}) {it['c']}"
+                            f"{'[' + key_str(tr['gkeys'][it['i'] - 1]) + ']' if it['c'] == 'get' else ''}"
+                            f"{'(' + str(it['i'] - 1) + ')' if it['c'] in ('has', 'gfi') else ''} "
+                            f"observed {short(observed_item(tr, it))}, required {short(it['exp'])}")
+                    ctx.violation(sig, what, {"cls": own["cls"], "g": tr["g"], "ops": tr["ops"], "obs": tr["obs"],
+                                              "gkeys": tr["gkeys"], "check": check, "rejected_at": rejected[i],
+                                              "item": it, "observed": observed_item(tr, it)})
+                if any(it["c"] == "outcome" or it["c"] in STATE_CLAUSES for it in here):
+                    break
 
 
 def g_str(g: dict) -> str:
@@ -631,7 +651,7 @@ def selftest_binding(ctx: Ctx, accepted: list[dict]) -> None:
     """Corrupt one logged observation of one accepted history: TLC must reject exactly that history at that
     event, and the diagnostic mode must name exactly the corrupted item."""
     cands = [t for t in accepted if len(t["ev"]) >= 3 and t["ev"][1]["op"] == "dump" and not t["ev"][1]["exc"]
-             and t["ev"][1]["o"]["get"][0]["data"]]
+             and any(x["data"] for x in t["ev"][1]["o"]["get"])]
     if len(cands) < 3:
         raise MachineryError("binding self-test: no accepted history to corrupt")
     sample = copy.deepcopy(cands[:12])
